@@ -1,6 +1,6 @@
 """Single source of truth for MANIFEST.json (tools/mkmanifest.py)."""
 
-FIX_COMMITS = ['cca4fac (C19 bbox int coercion)', '1b3ab08 28009fb (C05 cutout fill dtype / out-of-range integer fill)', '81c7236 (C05 multiply Quantity fill)', '1970dc7 e443d7c (C20 PixCoord.rotate any shape / differences in float)', 'c13e427 (C01 polygon scalar contains)', 'b692b96 (C14 FITS lexists)', 'd5e55fe (C14 encode before open)', '7575e32 50480bb b15a97b 942a7aa ec59199 (C17 validators/meta/list/nvertices/text)', 'd91a439 7c95242 bdc0d0d 562b011 (C12 FITS exclude prefix / include+component / component dtype / ROTANG degrees)', '23f75f4 4b5524a 7cc5a6b (C16/C06 compound sky meta, shape-mismatch ==, symmetric PixCoord ==)', 'dca4ab5 (C18 text kwargs aliases)', 'be2b52e f813781 bd2caa9 1c54a50 (C10 DS9 reader)', 'd58a058 80f2f4f 193fdcf (C09 DS9 writer)', '90d029a 48bc62d 5176ec4 3bd1349 e7c5f7b 10da16e (C11/C13 CRTF)']
+FIX_COMMITS = ['cca4fac (C19 bbox int coercion)', '1b3ab08 28009fb (C05 cutout fill dtype / out-of-range integer fill)', '81c7236 (C05 multiply Quantity fill)', '1970dc7 e443d7c (C20 PixCoord.rotate any shape / differences in float)', 'c13e427 (C01 polygon scalar contains)', 'b692b96 (C14 FITS lexists)', 'd5e55fe (C14 encode before open)', '7575e32 50480bb b15a97b 942a7aa ec59199 (C17 validators/meta/list/nvertices/text)', 'd91a439 7c95242 bdc0d0d 562b011 (C12 FITS exclude prefix / include+component / component dtype / ROTANG degrees)', '23f75f4 4b5524a 7cc5a6b (C16/C06 compound sky meta, shape-mismatch ==, symmetric PixCoord ==)', 'dca4ab5 (C18 text kwargs aliases)', 'be2b52e f813781 bd2caa9 1c54a50 (C10 DS9 reader)', 'd58a058 80f2f4f 193fdcf (C09 DS9 writer)', '90d029a 48bc62d 5176ec4 3bd1349 e7c5f7b 10da16e 120394c (C11/C13 CRTF; last one: frame attributes F34)']
 HOOK_COMMITS = []
 
 CHECKS = [
@@ -32,7 +32,8 @@ CHECKS = [
              'Polygons: proved laws of the even-odd implementation (division-free form, edge symmetry, translation invariance, start-vertex and orientation independence, axis rectangles exact, '
              'confinement to the vertex range via parity of straddling edges); the even-odd implementation is PROVED correct for every non-degenerate triangle '
              '(true on the open triangle = strict convex combinations of the vertices, false off the closed triangle, both orientations) and, by the exact fan decomposition '
-             'pnpoly_fan + induction, for every strictly convex polygon with any number of vertices (true on the open polygon off the fan diagonals of one vertex, false outside); '
+             'pnpoly_fan + induction, for every strictly convex polygon with any number of vertices (true on the open polygon off the fan diagonals of one vertex, false outside), '
+             'in particular for the ideal vertices of RegularPolygonPixelRegion for every n >= 3 (proved strictly convex over R: C01Regular); '
              '"even-odd = inside" for arbitrary NON-convex simple polygons is NOT a theorem (needs Jordan curve) and is decided by the differential run against an exact-rational crossing oracle.',
      'note': 'Trusted: Lean kernel/Mathlib/3 std axioms; hand model Shapes.lean/Region.lean tied to the code by the correspondence run '
              '(exact rationals, boundary band 1e-9 excepted as C01 allows); np.cos/np.sin/np.hypot correct to a few ulp; the compiled pnpoly .so is what runs.'},
